@@ -411,6 +411,24 @@ def main(argv=None):
         if a.replay:
             rc = mod.replay(ctx, json.loads(Path(a.replay).read_text()))
             sys.exit(rc)
+        # corpus first: minimised past failures / witnesses of known and fixed findings
+        cdir = CORPUS / prop
+        if cdir.is_dir() and not getattr(mod, "CORPUS_IN_RUN", False):
+            import contextlib
+            import io
+            for cf in sorted(cdir.glob("*.json")):
+                try:
+                    obj = json.loads(cf.read_text())
+                    buf = io.StringIO()
+                    with contextlib.redirect_stdout(buf):
+                        r = mod.replay(ctx, obj)
+                    ctx.hit("corpus_cases_replayed")
+                    if r:
+                        ctx.fail(obj.get("signature", f"{prop}:corpus:{cf.stem}"),
+                                 "corpus case fails on the current code: " + str(obj.get("what", cf.name)),
+                                 obj.get("replay", {"corpus_file": str(cf.relative_to(VERIF))}))
+                except Exception as e:  # noqa: BLE001
+                    ctx.extra.setdefault("corpus_errors", []).append(f"{cf.name}: {type(e).__name__}: {e}")
         mod.run(ctx)
         rc = ctx.finish()
         print(f"[{prop}] tier={tier} seed={seed} evaluations={ctx.evaluations} distinct={len(ctx.nontrivial)} "
